@@ -185,12 +185,14 @@ def r09b(ctx):
         for n in walk_no_nested(f.node):
             if not (isinstance(n, ast.If) and n.orelse):
                 continue
-            # the test is the text node's own slot predicate: `<x>.is_text()` itself or a local defined from it
-            tc = canon(f, n.test)
+            # the test is the text node's own slot predicate: `<x>.is_text()` itself or a local defined from it (possibly negated, arms swapped)
+            from ..paths import if_arms
+            core, arm_t, arm_f = if_arms(n)
+            tc = canon(f, core)
             if not (tc.endswith(".is_text") or tc.endswith(".is_text()")):
                 continue
-            stores_t = [a.targets[0] for s in n.body for a in ast.walk(s) if isinstance(a, ast.Assign) and isinstance(a.targets[0], ast.Attribute) and a.targets[0].attr in ("text", "tail")]
-            stores_f = [a.targets[0] for s in n.orelse for a in ast.walk(s) if isinstance(a, ast.Assign) and isinstance(a.targets[0], ast.Attribute) and a.targets[0].attr in ("text", "tail")]
+            stores_t = [a.targets[0] for s in arm_t for a in ast.walk(s) if isinstance(a, ast.Assign) and isinstance(a.targets[0], ast.Attribute) and a.targets[0].attr in ("text", "tail")]
+            stores_f = [a.targets[0] for s in arm_f for a in ast.walk(s) if isinstance(a, ast.Assign) and isinstance(a.targets[0], ast.Attribute) and a.targets[0].attr in ("text", "tail")]
             if not stores_t and not stores_f:
                 continue  # the read arm (text_str = …) is checked by R09a
             # one owner: the element whose .text is written in the true arm and whose .tail is written in the false arm
@@ -201,8 +203,8 @@ def r09b(ctx):
             ok = c is not None and not any(x.attr == "tail" and ast.unparse(x.value) == c for x in stores_t) \
                 and not any(x.attr == "text" and ast.unparse(x.value) == c for x in stores_f)
             # placement of the new element
-            calls_t = [x for s in n.body for x in ast.walk(s) if isinstance(x, ast.Call) and call_name(x) == "insert"]
-            calls_f = [x for s in n.orelse for x in ast.walk(s) if isinstance(x, ast.Call) and call_name(x) in ("insert", "addnext")]
+            calls_t = [x for s in arm_t for x in ast.walk(s) if isinstance(x, ast.Call) and call_name(x) == "insert"]
+            calls_f = [x for s in arm_f for x in ast.walk(s) if isinstance(x, ast.Call) and call_name(x) in ("insert", "addnext")]
             first = any((repo.fold(get_arg(x, None, "position"), f.module) == 0) or (x.args and repo.fold(x.args[0], f.module) == 0) for x in calls_t)
 
             def after_owner(x):
@@ -255,11 +257,22 @@ def r09c(ctx):
     if ok:
         top = inner[-1]
 
+        from ..paths import if_arms
+
         def arm_ok(body, slot_attr, owner_text):
+            """`if <owner>.<slot> is None: <owner>.<slot> = tail else: <owner>.<slot> += tail`, in either orientation"""
             sub = [n for n in body if isinstance(n, ast.If)]
             if not sub:
                 return False
-            a_, b_ = sub[0].body, sub[0].orelse
+            core, when_t, when_f = if_arms(sub[0])
+            is_none = isinstance(core, ast.Compare) and len(core.ops) == 1 and isinstance(core.comparators[0], ast.Constant) and core.comparators[0].value is None
+            if not is_none:
+                return False
+            if isinstance(core.ops[0], ast.IsNot):
+                when_t, when_f = when_f, when_t
+            elif not isinstance(core.ops[0], ast.Is):
+                return False
+            a_, b_ = when_t, when_f  # a_: slot empty → plain store; b_: slot filled → append
             st = [x for x in a_ if isinstance(x, ast.Assign)] + [x for x in b_ if isinstance(x, (ast.AugAssign, ast.Assign))]
             if len(st) != 2:
                 return False
@@ -271,10 +284,14 @@ def r09c(ctx):
                     return False
             return isinstance(st[1], ast.AugAssign) and isinstance(st[1].op, ast.Add)
 
-        t = top.test
-        has_prev = isinstance(t, ast.Compare) and len(t.ops) == 1 and isinstance(t.ops[0], ast.IsNot) and isinstance(t.left, ast.Name) and t.left.id == prevvar \
+        t, top_t, top_f = if_arms(top)
+        has_prev = isinstance(t, ast.Compare) and len(t.ops) == 1 and isinstance(t.left, ast.Name) and t.left.id == prevvar \
             and isinstance(t.comparators[0], ast.Constant) and t.comparators[0].value is None
-        ok = has_prev and arm_ok(top.body, "tail", prevvar) and arm_ok(top.orelse, "text", rm_recv[0])
+        if has_prev and isinstance(t.ops[0], ast.Is):
+            top_t, top_f = top_f, top_t  # `if prev is None: → parent.text else: → prev.tail`
+        elif has_prev and not isinstance(t.ops[0], ast.IsNot):
+            has_prev = False
+        ok = has_prev and arm_ok(top_t, "tail", prevvar) and arm_ok(top_f, "text", rm_recv[0])
     ctx.instance("R09c", f"{f.file}:{f.ident}", "tail → prev.tail (=/+=) when a previous sibling exists, else → parent.text (=/+=)", ok=ok, nontrivial=True, line=blk.lineno)
     if not ok:
         ctx.report("R09c", f, blk, "keep_tail arms", "Element.delete(keep_tail=True) does not move the removed node's tail into prev.tail or parent.text on every path: "
